@@ -67,6 +67,12 @@ check("C09", "exploration",
       "property-based testing (rapid) with history invariants and white-box state reads at a quiescence oracle, in virtual time",
       "DESIGN.md §4 C09")
 
+check("C06", "exploration",
+      "Generated trees, watcher / subscription / job set-ups and kill sequences (repeated, concurrent, racing spawns and late watchers) run on the real runtime in virtual time; global history invariants over the trace, the event stream and white-box tables decide subtree termination, children-first order, exactly-once notification and release of path / subscriptions / jobs.",
+      "Sampling of scenarios and interleavings; quiescence by testing/synctest.",
+      "property-based testing (rapid): history invariants over generated kill scenarios, virtual time, white-box table reads",
+      "DESIGN.md §4 C06")
+
 NOT_YET = {}
 
 def main():
